@@ -23,6 +23,7 @@ structural anchors. A lost anchor raises LostAnchor (=> undecided, never an alar
 """
 import hashlib
 import os
+import json
 import re
 import sys
 
@@ -194,6 +195,63 @@ def locate_item(repo, rel, ikind, name, owner=None):
             body_s = pre2.start()
         return src, kind, body_s, e, attrs
     raise LostAnchor('%s %s in %s not found' % (ikind, name, rel))
+
+
+
+SNAPSHOTS = None
+
+
+def load_snapshots():
+    """units/snapshots.json: comment-stripped text of every function under contract on the tree the contracts were written for
+    (generated by lib/snapshot.py). Used only to recognise RENAMED locals / parameters, so that annotations follow a rename."""
+    global SNAPSHOTS
+    if SNAPSHOTS is None:
+        p = os.path.join(os.path.dirname(os.path.dirname(os.path.abspath(__file__))), 'units', 'snapshots.json')
+        try:
+            SNAPSHOTS = json.load(open(p))
+        except Exception:
+            SNAPSHOTS = {}
+    return SNAPSHOTS
+
+
+def _tokens(t):
+    out = []
+    for m in re.finditer(r'[A-Za-z_]\w*|\d[\w.]*|\S', t):
+        tok = m.group(0)
+        dotted = t[:m.start()].rstrip().endswith('.') and not t[:m.start()].rstrip().endswith('..')
+        out.append((tok, dotted))
+    return out
+
+
+def rename_map(old, new):
+    """identifiers of `old` that were consistently replaced by a fresh identifier in `new` (token-level diff), e.g. a renamed local"""
+    import difflib
+    a = _tokens(old)
+    b = _tokens(new)
+    ida = set(t for t, d in a if not d and re.match(r'^[A-Za-z_]\w*$', t))
+    idb = set(t for t, d in b if not d and re.match(r'^[A-Za-z_]\w*$', t))
+    sm = difflib.SequenceMatcher(None, [t for t, _ in a], [t for t, _ in b], autojunk=False)
+    cand = {}
+    bad = set()
+    for op, i1, i2, j1, j2 in sm.get_opcodes():
+        if op != 'replace' or i2 - i1 != j2 - j1:
+            continue
+        for k in range(i2 - i1):
+            (x, dx), (y, dy) = a[i1 + k], b[j1 + k]
+            if dx or dy or x == y or not re.match(r'^[A-Za-z_]\w*$', x) or not re.match(r'^[A-Za-z_]\w*$', y):
+                continue
+            if x in idb or y in ida:
+                continue      # not a rename: the old name is still in use, or the new name already existed
+            if cand.get(x, y) != y:
+                bad.add(x)
+            cand[x] = y
+    return dict((x, y) for x, y in cand.items() if x not in bad)
+
+
+def apply_rename(body, rmap):
+    for x, y in rmap.items():
+        body = re.sub(r'(?<![\w.])%s\b(?!\s*\()' % re.escape(x), y, body)
+    return body
 
 
 def strip_comments(text):
@@ -562,6 +620,14 @@ def _assemble(template_path, repo, vacuity=False):
             else:
                 fid_out = fid
             text = strip_comments(raw)
+            snap = load_snapshots().get('%s|%s|%s|%s' % (rel, owner, name, opts.get('trait') or ''))
+            if snap is not None and re.sub(r'\s+', ' ', snap) != re.sub(r'\s+', ' ', text):
+                rmap = rename_map(snap, text)
+                if rmap:
+                    # locals / parameters that were renamed in /repo: the annotations follow the rename (logged)
+                    sections = dict((tuple(apply_rename(x_, rmap) if isinstance(x_, str) and len(x_) > 12 else x_ for x_ in k_), apply_rename(v_, rmap)) for k_, v_ in sections.items())
+                    rws = [(apply_rename(a_, rmap), apply_rename(b_, rmap), c_) for (a_, b_, c_) in rws] if rws and len(rws[0]) == 3 else rws
+                    meta['rewrites'].append({'where': fid_out, 'pattern': 'annotations: renamed identifiers', 'replacement': ', '.join('%s->%s' % kv for kv in sorted(rmap.items())), 'count': len(rmap)})
             text = apply_rewrites(text, BUILTIN_RW, meta['rewrites'], fid_out, required=False)
             text = apply_rewrites(text, grws, meta['rewrites'], fid_out, required=False)
             text = apply_rewrites(text, rws, meta['rewrites'], fid_out)
@@ -574,7 +640,7 @@ def _assemble(template_path, repo, vacuity=False):
             ndrop = len(LENIENT['dropped'])
             text0 = text
             text = splice_fn(fid_out, text, sections, opts)
-            if fid_out in LENIENT.get('force', ()):
+            if fid_out in LENIENT.get('force', ()) and any(k_[0] not in ('sig', 'attr') for k_ in sections):
                 # a proof hint of this function no longer compiles against the changed code (it names something that is gone)
                 LENIENT['dropped'].append('%s: a proof hint refers to code that no longer exists' % fid_out)
             if (LENIENT['on'] or fid_out in LENIENT.get('force', ())) and len(LENIENT['dropped']) > ndrop:
@@ -679,6 +745,60 @@ def _assemble(template_path, repo, vacuity=False):
     return text, meta
 
 
+def _split_args(a):
+    out, d, cur = [], 0, ''
+    for ch in a:
+        if ch in '([{':
+            d += 1
+        elif ch in ')]}':
+            d -= 1
+        if ch == ',' and d == 0:
+            out.append(cur.strip())
+            cur = ''
+        else:
+            cur += ch
+    if cur.strip():
+        out.append(cur.strip())
+    return out
+
+
+def inline_helper(text, name, has_self, pnames, expr, rtype):
+    """replace calls `recv.name(args)` / `Self::name(args)` / `Owner::name(args)` / `name(args)` by the helper's expression"""
+    n = 0
+    pos = 0
+    while True:
+        m = re.compile(r'(?:(?P<recv>\b[A-Za-z_][\w.]*)\.|(?P<path>\b(?:[A-Za-z_]\w*::)+)|(?<![\w.:]))%s\s*\(' % re.escape(name)).search(text, pos)
+        if not m:
+            break
+        if re.search(r'\bfn\s+$', text[:m.start()]):
+            pos = m.end()
+            continue
+        # balanced argument list
+        i = m.end()
+        d = 1
+        while i < len(text) and d:
+            d += 1 if text[i] in '([{' else (-1 if text[i] in ')]}' else 0)
+            i += 1
+        args = _split_args(text[m.end():i - 1])
+        recv = m.group('recv')
+        if has_self and not recv and args:
+            recv = re.sub(r'^&\s*(mut\s+)?', '', args[0])
+            args = args[1:]
+        if len(args) != len(pnames) or (has_self and not recv):
+            pos = m.end()
+            continue
+        e = expr
+        for pn, av in zip(pnames, args):
+            e = re.sub(r'\b%s\b' % re.escape(pn), lambda _m: '(' + av + ')', e)
+        if has_self:
+            e = re.sub(r'\bself\b', lambda _m: recv, e)
+        rep = '((%s) as %s)' % (e, rtype) if re.match(r'^[ui](8|16|32|64|128|size)$', rtype) else '(%s)' % e
+        text = text[:m.start()] + rep + text[i:]
+        pos = m.start() + len(rep)
+        n += 1
+    return text, n
+
+
 def add_auto_helpers(text, meta, repo, auto):
     """auto: list of (owner_or_None, name) reported missing by rustc. Helper functions that a changed /repo introduced are
     extracted verbatim (builtin rewrites, visibility stripped, no contract) and appended, so that the unit still compiles."""
@@ -702,12 +822,22 @@ def add_auto_helpers(text, meta, repo, auto):
             t = re.sub(r"\b(QueueReader|PointCloudWriter|PointCloudReaderRaw|PointCloudReaderSimple)<'a, T>", r"\1<'a>", t)
             # a helper whose body is one side-effect-free arithmetic expression gets the contract `result == that expression`
             # (mechanically derived; overflow inside it is still checked by Verus in the helper itself)
-            mm = re.match(r'^(fn\s+\w+\s*\([^)]*\))\s*->\s*([\w:<>]+)\s*\{\s*([^;{}]+?)\s*\}\s*$', t, re.S)
+            mm = re.match(r'^(fn\s+\w+\s*\(([^)]*)\))\s*->\s*([\w:<>]+)\s*\{\s*([^;{}]+?)\s*\}\s*$', t, re.S)
             inferred = False
-            if mm and re.match(r'^[\w\s+\-*/%()<>=!&|:.,]+$', mm.group(3)) and not re.search(r'[A-Za-z_]\w*\s*\(', re.sub(r'\bas\s+\w+', '', mm.group(3))) \
-                    and '&mut' not in mm.group(1) and 'self' not in mm.group(1):
-                t = '%s -> (r: %s)\n    ensures r == (%s)\n{ %s }' % (mm.group(1), mm.group(2), mm.group(3), mm.group(3))
-                inferred = True
+            if mm and re.match(r'^[\w\s+\-*/%()<>=!&|:.,]+$', mm.group(4)) and not re.search(r'[A-Za-z_]\w*\s*\(', re.sub(r'\bas\s+\w+', '', mm.group(4))) \
+                    and '&mut' not in mm.group(1):
+                # a NEW helper whose body is one side-effect-free expression has no contract of its own: it is inlined at its call sites
+                # (beta reduction, logged as an extraction rewrite), so that the callers' contracts decide about it
+                params = [q.strip() for q in mm.group(2).split(',') if q.strip()]
+                has_self = bool(params) and re.match(r'^&?\s*self$', params[0])
+                pnames = [q.split(':')[0].strip() for q in params[1 if has_self else 0:]]
+                text, ninl = inline_helper(text, name, has_self, pnames, mm.group(4), mm.group(3))
+                if ninl:
+                    meta['rewrites'].append({'where': name, 'pattern': 'call of new one-expression helper %s' % name,
+                                             'replacement': '(%s) inlined at %d call site(s)' % (mm.group(4), ninl), 'count': ninl})
+                    meta.setdefault('auto_inlined', []).append(name)
+                    added.append('%s%s (%s, inlined)' % ((owner + '::') if owner else '', name, rel))
+                    break
             meta.setdefault('auto_uncontracted', [])
             if not inferred:
                 meta['auto_uncontracted'].append(name)
